@@ -334,6 +334,21 @@ impl<'a> Bfs<'a> {
                     }))
                     .ok()
                 }
+                /// element load (kind 0) or load-and-store-back (kind 1): true when the call returned
+                fn elem_access<T: ByteValued>(root: &Root, off: usize, n: usize, i: usize, kind: usize) -> bool {
+                    // SAFETY: validated
+                    let a = unsafe { VolatileArrayRef::<T>::new(root.ptr().add(off), n) };
+                    std::panic::catch_unwind(std::panic::AssertUnwindSafe(|| {
+                        if kind == 0 {
+                            let _ = a.load(i);
+                        } else {
+                            // an index inside the array keeps its value; one outside must never get here
+                            let v = if i < n { a.load(i) } else { T::zeroed() };
+                            a.store(i, v);
+                        }
+                    }))
+                    .is_ok()
+                }
                 let sz = ty.size();
                 let (p, l) = with_t1!(ty, to_slice, self.root, off, n);
                 self.transitions += 1;
@@ -365,6 +380,18 @@ impl<'a> Bfs<'a> {
                             }
                         }
                         None => {}
+                    }
+                    // the element accessors take the same indices
+                    for kind in 0..2usize {
+                        self.transitions += 1;
+                        let name = if kind == 0 { "VolatileArrayRef::load" } else { "VolatileArrayRef::store" };
+                        let describe = || (format!("C01/{}/{}", self.root.what, name), format!("{:?} index {}", node, i), json!({"node": format!("{:?}", node), "index": i}));
+                        let returned = crate::crash::quiet_unwind(|| crate::crash::guarded(self.ctx, &describe, || with_t1!(ty, elem_access, self.root, off, n, i, kind))).ok().flatten();
+                        match returned {
+                            Some(true) if i >= n => self.fail(name, "index-out-of-range-accepted", node, format!("{}", i), format!("element {} of an array of {} elements was accessed", i, n)),
+                            Some(false) if i < n => self.fail(name, "panicked-for-valid-index", node, format!("{}", i), "".into()),
+                            _ => {}
+                        }
                     }
                 }
             }
@@ -755,7 +782,7 @@ fn region_roots(ctx: &Ctx) {
 pub fn run(tier: Tier, replay: Option<String>) -> i32 {
     let ctx = crate::new_ctx("C01", tier, "model_checking", &replay);
     let thorough = tier.thorough();
-    ctx.set_rule("E1 to an empty frontier: state = (accessor kind, element type, start offset relative to the root, extent); from every reachable VolatileSlice: subslice/get_slice/compute_end_offset for every (offset, count) in (0..=L+1 + values around isize::MAX/usize::MAX + pointer-overflowing values)^2, offset/split_at for every such value, get_ref / aligned_as_ref / aligned_as_mut / get_array_ref (every count 0..=L/size+1 + overflowing counts) for 13 element types of 0..16 bytes (incl. zero-sized types of alignment 1, 2, 8 and 16, whose references must still be aligned), get_atomic_ref for all 10 AtomicInteger types; from references: to_slice; from arrays: to_slice and ref_at for every index incl. out of range. Every transition runs on the real API and is compared with an interval model (accepted iff offset+count does not overflow and fits the immediate parent; child exactly [parent+o, +c); typed/atomic references only at aligned addresses). Every new state is exercised: fill through the accessor, read back, copy into it from longer sources of 1/2/3/4/8-byte elements, only its own range may change inside a canary window placed before a PROT_NONE guard page. Roots: VolatileSlice of N bytes at every address mod 8 plus one ending at the guard page; MmapRegion (anonymous and file-backed) of 1, 5, 4096, 4097 bytes through the region, guest-region and guest-memory API; ByteValued::from_slice/from_mut_slice for all lengths 0..=17 x misalignments x types.");
+    ctx.set_rule("E1 to an empty frontier: state = (accessor kind, element type, start offset relative to the root, extent); from every reachable VolatileSlice: subslice/get_slice/compute_end_offset for every (offset, count) in (0..=L+1 + values around isize::MAX/usize::MAX + pointer-overflowing values)^2, offset/split_at for every such value, get_ref / aligned_as_ref / aligned_as_mut / get_array_ref (every count 0..=L/size+1 + overflowing counts) for 13 element types of 0..16 bytes (incl. zero-sized types of alignment 1, 2, 8 and 16, whose references must still be aligned), get_atomic_ref for all 10 AtomicInteger types; from references: to_slice; from arrays: to_slice, and ref_at, load and store for every index incl. out of range (an element outside the array must be refused by all three). Every transition runs on the real API and is compared with an interval model (accepted iff offset+count does not overflow and fits the immediate parent; child exactly [parent+o, +c); typed/atomic references only at aligned addresses). Every new state is exercised: fill through the accessor, read back, copy into it from longer sources of 1/2/3/4/8-byte elements, only its own range may change inside a canary window placed before a PROT_NONE guard page. Roots: VolatileSlice of N bytes at every address mod 8 plus one ending at the guard page; MmapRegion (anonymous and file-backed) of 1, 5, 4096, 4097 bytes through the region, guest-region and guest-memory API; ByteValued::from_slice/from_mut_slice for all lengths 0..=17 x misalignments x types.");
     ctx.assume("accessor structs are Copy records of exactly (address, extent, bitmap, mmap handle): two chains reaching the same (kind, type, offset, extent) have the same futures, so merging them is sound");
     if ctx.replay_of.is_some() {
         println!("replay: the search is deterministic; re-running it and reporting whether the recorded key fails again");
